@@ -282,6 +282,8 @@ def run(ctx: Ctx) -> None:
                         else:
                             pf["matching_threshold_list"] = [50.0 if l == "false_positive" else t for l, t in zip(pf["target_labels"], pf["matching_threshold_list"])]
                 an = None
+                combine = n_scenes >= 2 and r.random() < 0.5  # several recordings added in ONE add(): frame numbers repeat
+                pooled: List[Any] = []
                 for s in range(n_scenes):
                     scn = base if s == 0 else gen_scenario(r, task=task, n_frames=r.randint(1, 3), overrides={k: v for k, v in base.cfg.items()})
                     if s > 0:
@@ -295,6 +297,12 @@ def run(ctx: Ctx) -> None:
                         results = run_.run_all()
                         if an is None:
                             an = PerceptionAnalyzer3D(run_.config, num_area_division=div)
-                        an.add(results)
+                        if combine:
+                            pooled += results
+                            if s == n_scenes - 1:
+                                ctx.count("C19.combined_adds")
+                                an.add(pooled)
+                        else:
+                            an.add(results)
                         pfr_mod.get_object_status(results)
         ctx.notes["taps"] = taps.installed
